@@ -206,7 +206,7 @@ def run(ctx: Context) -> None:
 LIST_MUTATORS = {"append", "extend", "insert", "remove", "pop", "clear", "sort", "reverse", "__setitem__", "__delitem__", "update", "setdefault"}
 
 
-def _request_immutable(ctx: Context) -> None:
+def _request_immutable(ctx: Context, rule: str = "C03.R8", consequence: str | None = None) -> None:
     """Census: no store to an attribute of a Request, no in-place mutation of request.headers / request.extensions, anywhere
     outside Request.__init__ (the pool may transmit the same Request object again)."""
     rep = ctx.rep
@@ -240,10 +240,31 @@ def _request_immutable(ctx: Context) -> None:
             if not what.startswith("store") and not on_fields:
                 continue
             sites += 1
-            rep.ob("C03.R8", fkey(tree, f, f"mutates-request:{norm(n)[:50]}"), False, where(f, n),
-                   f"`{ast.unparse(n)[:70]}` ({what}) modifies a Request after construction: a transparent re-send (or the caller's next use of the same objects) transmits a different request")
+            rep.ob(rule, fkey(tree, f, f"mutates-request:{norm(n)[:50]}"), False, where(f, n),
+                   f"`{ast.unparse(n)[:70]}` ({what}) modifies a Request after construction: " +
+                   (consequence or "a transparent re-send (or the caller's next use of the same objects) transmits a different request"))
     if not sites:
-        rep.ob("C03.R8", "both|*|request-immutable", True, "httpcore/", "no code modifies a Request object, its header list, URL or extensions after construction")
+        rep.ob(rule, "both|*|request-immutable", True, "httpcore/", "no code modifies a Request object, its header list, URL or extensions after construction")
+
+
+def drain_write_atomic(ctx: Context, rule: str, consequence: str) -> None:
+    """Async tree: no cancellation point between draining h2's output buffer (which commits the HPACK encoder and the stream /
+    window accounting) and handing the bytes to the network."""
+    rep = ctx.rep
+    N = ctx.names("async")
+    h2 = N.cls("http2", "AsyncHTTP2Connection")
+    wo = h2.methods["_write_outgoing_data"]
+    cfgw = ctx.cfg(wo)
+    dn = [n for n in cfgw.nodes if node_calls(n, lambda x: norm(x.func) == "self._h2_state.data_to_send")]
+    wn = [n for n in cfgw.nodes if node_calls(n, lambda x: norm(x.func) == "self._network_stream.write")]
+    rep.floor(rule, "data_to_send / write pair in _write_outgoing_data (async)", min(len(dn), len(wn)), 1)
+    between = []
+    if dn and wn:
+        r = cfgw.reachable([e.dst for e in dn[0].succ if e.kind != "exc"], follow=lambda e: e.kind != "exc", stop=lambda n: n is wn[0])
+        between = [n for n in cfgw.nodes if n.id in r and n is not wn[0] and n.may_cancel()]
+    rep.ob(rule, fkey("async", wo, "drain-to-write-atomic"), bool(dn) and bool(wn) and not between, where(wo, dn[0].ast if dn else None),
+           "no cancellation point between draining h2's output buffer and writing it" if not between else
+           f"cancellation point `{between[0].text()}` lies between data_to_send() and the write: " + consequence)
 
 _core_run = run
 
@@ -255,3 +276,32 @@ def run(ctx: Context) -> None:  # noqa: F811
     ctx.rep.rule('C03.R9', "each real backend's write() hands every byte of the buffer to the OS exactly once (write-all primitive, or a `while buffer` loop advanced by the count a partial send returns)")
     backend.write_all(ctx, 'C03.R9')
     ctx.rep.explanation = (ctx.rep.explanation or '') + " R9 (transport layer): every real backend stream's write() delivers the whole buffer - a write-all primitive, or a partial send inside a loop advanced by the returned count."
+
+
+_core_run_r10 = run
+
+
+def run(ctx: Context) -> None:  # noqa: F811
+    _core_run_r10(ctx)
+    from .c14 import _send_may_precede, _sent_before_entry, send_reaching
+
+    rep = ctx.rep
+    rep.rule("C03.R10", "a transmission attempt is repeated (ConnectionNotAvailable -> the pool sends the SAME Request object again) only from a point where nothing of "
+                        "the request can have been sent yet: the body of a request is an iterator that an earlier attempt has consumed, so a re-send after a send "
+                        "transmits a complete request with a shorter body")
+    n = 0
+    for tree, N in trees(ctx):
+        reach = send_reaching(ctx, N)
+        sent_before = _sent_before_entry(ctx, N, reach)
+        for f in N.functions():
+            for r in own_nodes(f.node):
+                if isinstance(r, ast.Raise) and r.exc is not None and "ConnectionNotAvailable" in norm(r.exc):
+                    n += 1
+                    may, why = _send_may_precede(ctx, f, r, reach, sent_before)
+                    occ = sum(1 for x in own_nodes(f.node) if isinstance(x, ast.Raise) and x.exc is not None and "ConnectionNotAvailable" in norm(x.exc) and x.lineno < r.lineno)
+                    rep.ob("C03.R10", fkey(tree, f, f"resend-after-send:{occ}"), not may, where(f, r),
+                           "no request-sending call can precede this raise within the call" if not may else
+                           f"request data - body chunks drawn from the caller's iterator included - may already have been sent here ({why}); the pool answers this exception by "
+                           "sending the same Request object on another connection: the iterator does not start again, so that attempt carries only what is left of the body "
+                           "(possibly nothing) and the caller receives the server's answer to the truncated request")
+    rep.floor("C03.R10", "raise sites of ConnectionNotAvailable (both trees)", n, 8)
